@@ -4,6 +4,7 @@ import (
 	"fmt"
 	"go/token"
 	"go/types"
+	"sort"
 
 	"golang.org/x/tools/go/ssa"
 
@@ -158,7 +159,13 @@ func checkC01(c *Ctx) {
 		f, _ := core.FieldOfAddr(st.Addr)
 		return f == lastID && core.Derives(st.Val, core.IsFieldLoad(seqIdTopic), true)
 	}, 2, nil)
-	for _, fn := range c.funcsCalling(topicsGet, "server") {
+	getters := c.getterCallers(topicsGet, "server")
+	var loaderFns []*ssa.Function
+	for fn := range getters {
+		loaderFns = append(loaderFns, fn)
+	}
+	sort.Slice(loaderFns, func(i, j int) bool { return fk(loaderFns[i]) < fk(loaderFns[j]) })
+	for _, fn := range loaderFns {
 		// loaders: functions that run only on the init goroutine (they build the Topic before its actor starts)
 		onInit := len(ri.of(fn)) > 0
 		for rt := range ri.of(fn) {
@@ -171,7 +178,7 @@ func checkC01(c *Ctx) {
 		}
 		r.Func(fk(fn))
 		construct := fk(fn) + ": Topic.lastID restored on every path that found the stored topic"
-		for _, g := range core.CallsTo(fn, topicsGet) {
+		for _, g := range getters[fn] {
 			isStopic := errResultOf(g, 0)
 			errIdx := errIndex(fn.Signature)
 			miss := false
@@ -187,6 +194,22 @@ func checkC01(c *Ctx) {
 						}
 					}
 				})
+			if !tested && !res.Overflow {
+				// the row comes through a wrapper that turns "not found" into an error: every
+				// success return after the call is a "found" path
+				miss = false
+				res = core.NilWalkAfter(fn, g, nil, isRestore, func(in ssa.Instruction, f core.NilFacts) {
+					ret, ok := in.(*ssa.Return)
+					if !ok || errIdx < 0 {
+						return
+					}
+					if k, n := core.Nilness(ret.Results[errIdx], f); k && !n {
+						return
+					}
+					miss = true
+				})
+				tested = core.CalleeOf(&g.Call) != topicsGet
+			}
 			if res.Overflow || !tested {
 				r.Fail("C01.1e-restore-on-every-load-path", construct, c.pos(g), "result of store.Topics.Get is not tested for nil, or path exploration overflowed: undecided")
 				continue
